@@ -53,6 +53,8 @@ class SwitchHeader(Node):
     def __init__(self, kind, *data):
         super().__init__()
         self.kind = kind
+        if kind == "opcall":
+            data = (data[0], tuple(data[1]), data[2] if len(data) > 2 else None)
         self.data = tuple(data)
 
     def key(self):
